@@ -23,7 +23,9 @@ tvars == <<vars, tid, l>>
 TraceInit == Init /\ tid \in 1..Len(Traces) /\ l = 1
 Ev == Traces[tid].ev
 
-Outcome(e) == IF e.out = "ok" THEN phase' = "build" ELSE phase' = "aborted"
+\* "ok" | "refused" (BatchException); any other outcome (the call crashed) is no step of the specification
+Outcome(e) == /\ e.out \in {"ok", "refused"}
+              /\ IF e.out = "ok" THEN phase' = "build" ELSE phase' = "aborted"
 DepsOk(e) == \A j \in 1..Len(e.deps) : deps'[j] = SetOf(e.deps[j])
 
 Rec(e) == [ parents |-> SetOf(e.rec.parents), inputs |-> SetOf(e.rec.inputs), outputs |-> SetOf(e.rec.outputs),
